@@ -385,4 +385,58 @@ theorem scanSigners_err (e : Env) (h : Hash) : ∀ (ss : List Signer) (x : Err),
       · exact checkSigner_err hh
       · exact scanSigners_err e h cs x hh
 
+/-! ### Without ReadStates nothing depends on the contract table -/
+
+theorem getContractGroups_noRS (e : Env) (k : Hash → Option (List Key)) (h : Hash)
+    (hrs : e.cur.readStates = false) :
+    getContractGroups (e.withContracts k) h = getContractGroups e h := by
+  simp [getContractGroups, Env.withContracts, hrs]
+
+theorem checkScriptGroups_noRS (e : Env) (k : Hash → Option (List Key)) (h : Hash) (g : Key)
+    (hrs : e.cur.readStates = false) :
+    checkScriptGroups (e.withContracts k) h g = checkScriptGroups e h g := by
+  simp only [checkScriptGroups, getContractGroups_noRS e k h hrs]
+
+mutual
+theorem matchC_noRS (e : Env) (k : Hash → Option (List Key)) (hrs : e.cur.readStates = false) :
+    ∀ c : Cond, matchC (e.withContracts k) c = matchC e c
+  | .boolean _ => by simp [matchC]
+  | .not c => by simp only [matchC, matchC_noRS e k hrs c]
+  | .and cs => by simp only [matchC]; exact matchAnd_noRS e k hrs cs
+  | .or cs => by simp only [matchC]; exact matchOr_noRS e k hrs cs
+  | .scriptHash _ => by simp [matchC, Env.current, Env.withContracts]
+  | .group g => by
+      simp only [matchC]
+      exact checkScriptGroups_noRS e k _ g hrs
+  | .calledByEntry => by simp [matchC, Env.isCalledByEntry, Env.withContracts]
+  | .calledByContract _ => by simp [matchC, Env.calling, Env.withContracts]
+  | .calledByGroup g => by
+      simp only [matchC]
+      exact checkScriptGroups_noRS e k _ g hrs
+theorem matchAnd_noRS (e : Env) (k : Hash → Option (List Key)) (hrs : e.cur.readStates = false) :
+    ∀ cs : List Cond, matchAnd (e.withContracts k) cs = matchAnd e cs
+  | [] => by simp [matchAnd]
+  | c :: cs => by simp only [matchAnd, matchC_noRS e k hrs c, matchAnd_noRS e k hrs cs]
+theorem matchOr_noRS (e : Env) (k : Hash → Option (List Key)) (hrs : e.cur.readStates = false) :
+    ∀ cs : List Cond, matchOr (e.withContracts k) cs = matchOr e cs
+  | [] => by simp [matchOr]
+  | c :: cs => by simp only [matchOr, matchC_noRS e k hrs c, matchOr_noRS e k hrs cs]
+end
+
+theorem evalRules_noRS (e : Env) (k : Hash → Option (List Key)) (hrs : e.cur.readStates = false) :
+    ∀ rs : List Rule, evalRules (e.withContracts k) rs = evalRules e rs
+  | [] => by simp [evalRules]
+  | r :: rs => by simp only [evalRules, matchC_noRS e k hrs r.cond, evalRules_noRS e k hrs rs]
+
+theorem checkSigner_noRS (e : Env) (k : Hash → Option (List Key)) (hrs : e.cur.readStates = false) (s : Signer) :
+    checkSigner (e.withContracts k) s = checkSigner e s := by
+  have h1 : (e.withContracts k).isCalledByEntry = e.isCalledByEntry := rfl
+  have h2 : (e.withContracts k).current = e.current := rfl
+  simp only [checkSigner, stepGroups, stepRules, h1, h2, getContractGroups_noRS e k _ hrs, evalRules_noRS e k hrs]
+
+theorem scanSigners_noRS (e : Env) (k : Hash → Option (List Key)) (hrs : e.cur.readStates = false) (h : Hash) :
+    ∀ ss : List Signer, scanSigners (e.withContracts k) h ss = scanSigners e h ss
+  | [] => by simp [scanSigners]
+  | c :: cs => by simp only [scanSigners, checkSigner_noRS e k hrs c, scanSigners_noRS e k hrs h cs]
+
 end NeoModel.Witness
